@@ -3,7 +3,7 @@
    jump out of blocks / closure creation / &x / reads and writes through variables and pointers) and over every
    pool capacity K (gomacro: K = poolCapacity = 32). *)
 From Coq Require Import List Arith ZArith Bool.
-From Verif Require Import C06.Model C06.Proof C06.Proof2 C06.Proof3.
+From Verif Require Import C06.Model C06.Proof C06.Proof2 C06.Proof3 C06.Proof4 C06.Proof5.
 Import ListNotations.
 
 (* a frame marked UsedByClosure has a marked Outer: why MarkUsedByClosure may stop at the first marked frame *)
@@ -50,11 +50,28 @@ Theorem C06_captured_value_stable_partial_pointer : forall K ops ops' a i,
    a_data (geta st' a) = a_data (geta st a)).
 Proof. exact pointer_target_stable. Qed.
 Print Assumptions C06_captured_value_stable_partial_pointer.
-(* Missing for the full statement (C06_captured_value_stable): the refinement
-     forall K ops, outs_refine (outputs K ops) (soutputs ops) = true
-   between the frame machine [step K] and the Go-spec machine [sstep] (fresh variables per activation, nothing
-   recycled), both defined in Model.v.  It is evaluated (vm_compute) on the examples below and, on every run of the check, on
-   random operation histories (case constructor mkHist: K in 1..3 and K = 32); it is not proved for all histories. *)
+(* C06_captured_value_stable — the full statement, as a refinement.  The Go-spec machine [sstep] (Model.v) gives every
+   call / block entry a FRESH activation with fresh variables and never recycles anything: there, a variable read
+   through a closure (OGet with upn > 0 after calling the closure) or through a pointer (OPGet) trivially yields the
+   last value written through any alias, however many calls intervene.  The frame machine [step K] — pool of capacity
+   K, frames re-occupied without clearing, Ints arrays re-used, MarkUsedByClosure / IntAddressTaken deciding what may be
+   recycled — produces, for EVERY operation history and EVERY pool capacity, outputs that refine the spec machine's:
+   same shape at every step (a read is a read, an inapplicable operation is inapplicable in both), and wherever the
+   spec value is defined (the variable was assigned in that activation) the frame machine returns exactly that value
+   (where the spec value is undefined — a never-assigned variable — the frame machine may return the stale content of a
+   recycled array, exactly as the Go code does before the compiler-emitted zeroing; see [val_refines]).
+   Proved by the simulation relation [Sim] (Proof4.v): activation n <-> the live frame with ghost f_act = n; variable
+   (n, slot) <-> cell slot of the array with ghost owner n; pooled frames correspond to nothing (Proof5.v: every
+   operation preserves Sim, using the structural invariant Inv1). *)
+Theorem C06_captured_value_stable : forall K ops, outs_refine (outputs K ops) (soutputs ops) = true.
+Proof. exact outputs_refine. Qed.
+Print Assumptions C06_captured_value_stable.
+
+(* one step of the simulation, for any state satisfying the invariant: the relation is preserved and the outputs refine *)
+Theorem C06_step_simulation : forall K st s o, Inv1 st -> stack st <> [] -> Sim st s ->
+  Sim (fst (step K st o)) (fst (sstep s o)) /\ out_refines (snd (step K st o)) (snd (sstep s o)) = true.
+Proof. exact step_sim. Qed.
+Print Assumptions C06_step_simulation.
 
 (* call protocol: arguments are in the parameter slots before the body runs; results are read before freeEnv *)
 Theorem C06_call_protocol_results : forall K st rs call caller rest, stack st = call :: caller :: rest ->
@@ -74,6 +91,7 @@ Definition ex_hist : list op :=
 Example C06_ex_values : filter (fun o => match o with RVal _ => true | _ => false end) (outputs poolCapacity ex_hist)
   = [RVal (Some 5%Z); RVal (Some 6%Z)].
 Proof. vm_compute. reflexivity. Qed.
+(* (now an instance of C06_captured_value_stable; kept as an executable check of the definitions) *)
 Example C06_ex_refines : outs_refine (outputs poolCapacity ex_hist) (soutputs ex_hist) = true
   /\ outs_refine (outputs 1 ex_hist) (soutputs ex_hist) = true.
 Proof. vm_compute. split; reflexivity. Qed.
